@@ -755,7 +755,7 @@ fn main() {
         "verdict (accept | LintError variant + row) of the Lean model = verdict of rusty_linter::core::lint on generated programs, all their single-edit mutants and renamed copies; accepted programs never end in a wrong-kind failure at run time; every fault at every position is rejected with the family's error at the edited row; distinct = (fault family, syntactic position kind, verdict)",
     );
     let thorough = rep.is_thorough();
-    let n_progs = if thorough { 400 } else { 14 };
+    let n_progs = if thorough { 400 } else { 12 };
     let str_x = || E::Lit(T::Str, "\"x\"".into());
 
     #[derive(Clone)]
@@ -1076,6 +1076,93 @@ fn main() {
         rep.bump("run:corpus");
         if let Some(why) = run_wrong_kind(text) {
             rep.fail(Failure { kind: Kind::ImplVsProperty, signature: "run:wrong-kind:corpus".into(), input: text.clone(), implementation: why, expected: "no wrong-kind failure".into(), note: String::new() });
+        }
+    }
+    // (e) the premise of the Lean theorem `wf_no_type_mismatch` (Thm/C12Core.lean): on the linted tree of every
+    // accepted program of the core language (assignments, PRINT, DATA/READ, IF, SELECT CASE, FOR, WHILE, DO) the
+    // typing discipline `RbModel.TyCore.tyTopB` must hold — the real checker has to establish it
+    {
+        let core_src = |text: &str| -> Option<String> {
+            let t = text.to_owned();
+            catch_unwind(AssertUnwindSafe(move || {
+                let p = rusty_parser::parse_main_str(t).ok()?;
+                let (linted, _ctx) = rusty_linter::core::lint(p).ok()?;
+                rb_harness::ast_sx::program_src(&linted).map(|(src, _)| src)
+            }))
+            .ok()
+            .flatten()
+        };
+        let mut texts: Vec<(String, &'static str)> = vec![];
+        let n_core = if thorough { 1500 } else { 100 };
+        for k in 0..n_core {
+            let o = rb_harness::gen_prog::Opts { subs: false, gosub: false, goto_fwd: false, on_error: false, jumps_out: false, faults: k % 3 == 0, ..rb_harness::gen_prog::Opts::default() };
+            let text = rb_harness::gen_prog::generate(&mut rng, &o).0;
+            // kind-swapped copies: one numeric literal replaced by a string literal (most are rejected; one that
+            // the checker accepts must still satisfy the discipline, or the checker has a hole at that position)
+            let b: Vec<char> = text.chars().collect();
+            let mut spots = vec![];
+            let mut in_str = false;
+            let mut i = 0;
+            while i < b.len() {
+                if b[i] == '"' {
+                    in_str = !in_str;
+                } else if b[i] == '\n' {
+                    in_str = false;
+                } else if !in_str && b[i].is_ascii_digit() && (i == 0 || !(b[i - 1].is_alphanumeric() || b[i - 1] == '.' || b[i - 1] == '_')) {
+                    let mut j = i;
+                    while j < b.len() && b[j].is_ascii_digit() {
+                        j += 1;
+                    }
+                    if j >= b.len() || !(b[j].is_alphanumeric() || b[j] == '.' || b[j] == ':') {
+                        spots.push((i, j));
+                    }
+                    i = j;
+                    continue;
+                }
+                i += 1;
+            }
+            for _ in 0..2 {
+                if !spots.is_empty() {
+                    let (i, j) = spots[rng.below(spots.len() as u64) as usize];
+                    let m: String = b[..i].iter().collect::<String>() + "\"a\"" + &b[j..].iter().collect::<String>();
+                    texts.push((m, "kind-swapped"));
+                }
+            }
+            texts.push((text, "generated"));
+        }
+        for _ in 0..(if thorough { 200 } else { 15 }) {
+            texts.push((rb_harness::gen_prog::grid(&mut rng), "grid"));
+        }
+        for t in corpus.iter().take(if thorough { 100000 } else { 1200 }) {
+            if t.len() <= 4000 {
+                texts.push((t.clone(), "corpus"));
+            }
+        }
+        let mut reqs = vec![];
+        let mut idx = vec![];
+        for (i, (t, _)) in texts.iter().enumerate() {
+            if let Some(src) = core_src(t) {
+                reqs.push(format!("(ty.core {})", src));
+                idx.push(i);
+            }
+        }
+        let answers = ask(&reqs);
+        for (j, a) in answers.iter().enumerate() {
+            let (text, origin) = &texts[idx[j]];
+            rep.case(Some(format!("core-typing|{}|{}", origin, a)));
+            rep.bump(&format!("core-typing:{}:{}", origin, a));
+            if a != "(ty true)" {
+                let consequence = match run_wrong_kind(text) {
+                    Some(why) if !text.to_uppercase().contains("READ") => format!("accepted; at run time: {}", why),
+                    _ => "accepted".to_owned(),
+                };
+                rep.fail(Failure { kind: if consequence == "accepted" { Kind::ModelVsImpl } else { Kind::ImplVsProperty }, signature: "core:accepted-but-typing-discipline-violated".into(), input: text.clone(), implementation: format!("{}; ty.core = {}", consequence, a), expected: "(ty true): every operator node typed by the table, assignment sides of one kind, numeric conditions, CASE items of the selector's kind, numeric FOR counter / bounds / step".into(), note: "premise of wf_no_type_mismatch (Thm/C12Core.lean) on the linted tree of an accepted core program".into() });
+            } else if !text.to_uppercase().contains("READ") {
+                // the theorem's conclusion on the real interpreter
+                if let Some(why) = run_wrong_kind(text) {
+                    rep.fail(Failure { kind: Kind::ImplVsProperty, signature: "run:wrong-kind:core".into(), input: text.clone(), implementation: why, expected: "no Type mismatch (wf_no_type_mismatch)".into(), note: String::new() });
+                }
+            }
         }
     }
     // the known finding C12-a and the repaired witnesses, as fixed cases
